@@ -1,4 +1,96 @@
-(* theorems for C01 are being added (see SMP/) *)
+(* C01 - Every schedule the simulator produces is a feasible job-shop schedule.
+   Statements only; proofs live in SMP/FeasView.v (the invariant on views), SMP/Feasible.v (handlers),
+   SMP/FeasSound.v (the boolean clause), SMP/FeasStep.v (state.step, middleware, reachable states). *)
 From Coq Require Import List ZArith Bool.
-Theorem C01_placeholder : True. Proof. exact I. Qed.
-Print Assumptions C01_placeholder.
+From JSL Require Import Base.Res SM.Types SM.Util SM.Handler SM.Step SM.Middleware SM.Inv SM.Example
+  SMP.Clock SMP.ClockMain SMP.FeasView SMP.Feasible SMP.FeasSound SMP.FeasStep.
+Import ListNotations.
+
+(* feasible_b (SM/Inv.v), the clause the monitors evaluate on every state of the implementation: per job
+   the records read DONE* PROCESSING? IDLE*, start <= end, consecutive non-idle records do not overlap
+   (precedence in technological order), each record names the machine the instance configures; per machine
+   no two non-idle records overlap (one operation at a time).
+
+   C01_initial: the compiler's initial states are feasible (and satisfy the inductive invariant FE). *)
+Theorem C01_initial :
+  forall (i : inst) (x : state), fresh_b i x = true -> FE i x /\ feasible_b i x = true.
+Proof. intros i x H. split; [apply fresh_FE; auto|apply FE_feasible; apply fresh_FE; auto]. Qed.
+Print Assumptions C01_initial.
+
+(* the inductive invariant implies the clause *)
+Theorem C01_invariant_implies_feasible : forall (i : inst) (x : state), FE i x -> feasible_b i x = true.
+Proof. exact FE_feasible. Qed.
+Print Assumptions C01_invariant_implies_feasible.
+
+(* One applied transition, any instance with non-negative configured times, any oracle (seed), any state
+   satisfying the clock invariant (C12) and FE, any transition that state.step validated:
+   FE survives. The single side condition (transit_side_b, read in the post-state) says that an AGV did
+   not take a job whose operation is in process; it is needed for transitions handed to state.step
+   directly (the validator only checks the AGV's phase) and is evaluated by the monitors on every
+   transition the implementation applies. *)
+Theorem C01_one_transition_partial :
+  forall (sigma : oracle) (i : inst) (x : state) (tr : transition) (x' : state),
+    inst_nonneg_b i = true -> clock_b x = true -> FE i x ->
+    is_transition_valid x tr = Ok true -> apply_transition sigma i x tr = Ok x' ->
+    transit_side_b tr x' = true ->
+    FE i x' /\ feasible_b i x' = true.
+Proof.
+  intros sigma i x tr x' Hnn C F Hv Ha Hs. apply NO_iff_clock_b in C.
+  assert (F' : FE i x') by (eapply apply_preserves_FE; eauto). split; [exact F'|apply FE_feasible; exact F'].
+Qed.
+Print Assumptions C01_one_transition_partial.
+
+(* Every state the environment reaches from a compiled initial state under ANY accept/decline sequence of
+   ANY length, any truncation setting and loop fuel is a feasible schedule, as long as the side condition
+   held for the transitions applied on the way (reachS = reach + side condition per micro-log).
+   Full statement (C01 without the side condition) is NOT proved: it needs the further invariant that a
+   claimed job stays where it was claimed until its AGV arrives, which the middleware's offers guarantee
+   but arbitrary state.step inputs do not. *)
+Theorem C01_reachable_partial :
+  forall (sigma : oracle) (i : inst) (fuel : nat) (x0 : state) (joker0 : Z) (ta : bool) (r : result) (m : mw),
+    inst_nonneg_b i = true -> clock_b x0 = true -> fresh_b i x0 = true ->
+    reachS sigma i fuel x0 joker0 ta r m -> feasible_b i (r_x r) = true.
+Proof. intros. eapply reachS_feasible; eauto. Qed.
+Print Assumptions C01_reachable_partial.
+
+(* ... and every micro-state between two applied transitions of the next decision *)
+Theorem C01_micro_states_partial :
+  forall (sigma : oracle) (i : inst) (fuel : nat) (x0 : state) (joker0 : Z) (ta : bool) (r : result) (m : mw)
+         (a : Z) (r' : result) (m' : mw) (lg : mlog),
+    inst_nonneg_b i = true -> clock_b x0 = true -> fresh_b i x0 = true ->
+    reachS sigma i fuel x0 joker0 ta r m -> mw_step sigma i fuel r m a = MOk r' m' lg -> sides lg ->
+    forall tr y, In (tr, y) lg -> feasible_b i y = true.
+Proof. intros. eapply reachS_micro_feasible; eauto. Qed.
+Print Assumptions C01_micro_states_partial.
+
+(* multi-transition actions through state.step directly *)
+Theorem C01_step_partial :
+  forall (sigma : oracle) (i : inst) (fuel : nat) (x0 : state) (trs : list transition) (tm : tmachine)
+         (x' : state) (offers : list transition) (lg : mlog),
+    inst_nonneg_b i = true -> tm <> TMJumpByOne -> clock_b x0 = true -> FE i x0 ->
+    step sigma i fuel x0 trs tm = SOk x' offers lg -> sides lg ->
+    feasible_b i x' = true /\ forall tr y, In (tr, y) lg -> feasible_b i y = true.
+Proof.
+  intros sigma i fuel x0 trs tm x' offers lg Hnn Htm C F Hs Hsd. apply NO_iff_clock_b in C.
+  destruct (step_FE sigma i Hnn _ _ _ _ _ _ _ Htm C F Hs Hsd) as [L [xq [Nq [Fq [E|[_ [z E]]]]]]]; subst x'.
+  - split; [apply FE_feasible; auto|]. intros tr y Hin. apply FE_feasible. apply (L _ _ Hin).
+  - split; [rewrite feasible_set_now; apply FE_feasible; auto|]. intros tr y Hin. apply FE_feasible. apply (L _ _ Hin).
+Qed.
+Print Assumptions C01_step_partial.
+
+(* the executable side condition implies the one in the theorems *)
+Theorem C01_sides_reflect : forall lg, sides_b lg = true -> sides lg.
+Proof. exact sides_b_sound. Qed.
+Print Assumptions C01_sides_reflect.
+
+(* non-vacuity: the compiled initial state of a real instance satisfies the hypotheses; a mid-episode
+   state with operations DONE and PROCESSING is reachable WITH the side condition (runS checks it on
+   every micro-log) and is feasible *)
+Example C01_hypotheses_satisfiable :
+  inst_nonneg_b ex_inst = true /\ clock_b ex_state = true /\ fresh_b ex_inst ex_state = true.
+Proof. vm_compute. repeat split. Qed.
+Example C01_reachable_nontrivial :
+  exists r m, runS ex_sigma ex_inst 100 ex_state 3%Z true [1;1;1;0;1]%Z = Some (r, m)
+              /\ feasible_b ex_inst (r_x r) = true
+              /\ existsb (fun jb => existsb (is_ostate ODone) (j_ops jb)) (s_jobs (r_x r)) = true.
+Proof. vm_compute. eexists; eexists; repeat split. Qed.
